@@ -14,7 +14,7 @@ CONSTANTS Fmt0,         \* "sm" | "ssc": the format of the initial (empty) simfi
           Focus,        \* which part of the alphabet is switched on: "edit" | "save" | "tossc" | "tosm"
           MaxItems, MaxCharts, MaxDepth, DoEmit
 VARIABLE hist
-mvars == <<obj, disk, hist>>
+mvars == <<obj, disk, fs, hist>>
 View == <<obj, disk>>
 
 Key(n) == KeyOf(n)
@@ -78,7 +78,7 @@ H(rec) == hist' = Append(hist, rec)
 
 -----------------------------------------------------------------------------
 Init == /\ obj = [fmt |-> Fmt0, items |-> <<>>, charts |-> <<>>]
-        /\ disk = <<>>
+        /\ disk = <<>> /\ fs = <<>>
         /\ hist = <<>>
 
 MSetKey == \E k \in ItemKeys : \E v \in ValsOf(k) :
@@ -131,10 +131,11 @@ MTimeNotes == \E j \in DOMAIN obj.charts : \E opt \in {"fake", "drop", "keep"} :
 TimingNext == MSetKey \/ MDelKey \/ MSetAttr \/ MDelAttr \/ MAppendChart \/ MSetChartItem \/ MDelChartItem \/ MTimeNotes
 EditNext == MSetKey \/ MDelKey \/ MGetAttr \/ MSetAttr \/ MDelAttr \/ MAppendChart \/ MRemoveChart \/ MSwapCharts
             \/ MSetChartItem \/ MDelChartItem \/ MSetChartField \/ MReadNotes \/ MCountNotes \/ MReadTiming
-Next == \/ (Focus = "timing" /\ TimingNext)
-        \/ (Focus # "timing" /\ EditNext)
-        \/ (Focus \in {"save", "tossc", "tosm"} /\ (MSave \/ MReopen))
-        \/ (Focus \in {"tossc", "tosm"} /\ (MToSSC \/ MToSM))
+Calls == \/ (Focus = "timing" /\ TimingNext)
+         \/ (Focus # "timing" /\ EditNext)
+         \/ (Focus \in {"save", "tossc", "tosm"} /\ (MSave \/ MReopen))
+         \/ (Focus \in {"tossc", "tosm"} /\ (MToSSC \/ MToSM))
+Next == Calls /\ UNCHANGED fs           \* (named files: recorded sessions only, see Trace_System)
 Spec == Init /\ [][Next]_mvars
 
 Bound == Len(hist) <= MaxDepth
